@@ -656,6 +656,14 @@ class PrecipitateBase(GenericModel):
             aspectRatio = precParams.shapeFactor.aspectRatio(self.pData.Rcrit[self.pData.n, p])
             _, volDG, self._precBetaTemp[p] = nucfuncs.volumetricDrivingForce(self.therm, xComp, T, precParams, aspectRatio, self.removeCache)
             Y.drivingForce[0,p] = volDG
+
+            # Y is reused from the previous evaluation, so clear the nucleation terms of this phase
+            # Otherwise, the early exits below (no nucleation barrier / no nucleation rate) would keep stale values
+            Y.Rcrit[0,p] = 0
+            Y.Gcrit[0,p] = 0
+            Y.impingement[0,p] = 0
+            Y.nucRate[0,p] = 0
+            Y.Rnuc[0,p] = 0
             if volDG < 0:
                 continue
 
